@@ -27,11 +27,21 @@ FOREIGN = ["mnp_unrelated", "complex", "symbolic", "star", "long_del_ins", "comp
 ODDGT = ["./.", ".", "1", "0/1/1", "./1"]
 
 
-def vcf_records(sim, gene, m, style, pad=0):
+def vcf_records(sim, gene, m, style, pad=0, norm=False):
     """Left-anchored VCF records for a loaded variant m=(pos, op) -> list of (pos0, ref, alt); pad = extra shared bases in front of
     the anchor base of an insertion / deletion record (as in records merged from several alleles)."""
     pos, op = m
     G = sim.genome
+    if norm and (op.startswith("ins") or op.startswith("del")) and "ins" not in op[3:]:
+        # the record a caller writes: the indel shifted to its leftmost equivalent position inside a repeat
+        seq = op[3:]
+        for _ in range(200):
+            prev = G[pos] if op.startswith("ins") else G[pos - 1]
+            if prev != seq[-1] or pos < 3:
+                break
+            seq = seq[-1] + seq[:-1]
+            pos -= 1
+        op = op[:3] + seq
     if op.startswith("ins"):
         pad = min(pad, max(0, pos - 1))
         return [(pos - pad, G[pos - pad:pos + 1], G[pos - pad:pos + 1] + op[3:])]
@@ -148,7 +158,9 @@ def run_case(case):
         kind = "ins" if op.startswith("ins") else "del" if op.startswith("del") else "mnp" if len(op) > 3 else "snp"
         kinds.add(kind)
         gt = (f"0{sep}1" if not case["flip"] else f"1{sep}0") if c == 1 else f"1{sep}1"
-        rr = vcf_records(sim, gene, m, style, case.get("pad", 0))
+        rr = vcf_records(sim, gene, m, style, case.get("pad", 0), norm=bool(case.get("norm")))
+        if case.get("norm") and kind in ("ins", "del") and rr[0][0] != (pos if kind == "ins" else pos - 1):
+            labels.append("left-aligned-indel-record-differs-from-database-placement")
         if case.get("pad") and kind in ("ins", "del"):
             labels.append("padded-indel-record")
         mismatch = case["refmismatch"] and kind == "snp"
@@ -390,6 +402,7 @@ def strategy(tier):
         "mnp_style": st.sampled_from(["mnp_one", "adjacent"]),
         "refmismatch": st.sampled_from([False, False, True]),
         "pad": st.sampled_from([0, 0, 1, 3]),
+        "norm": st.booleans(),
         "merge": st.booleans(),
         "twinpick": st.booleans(),
         "extras": st.lists(extra, max_size=3),
